@@ -12,7 +12,8 @@ THEOREMS = ["C10_paused_only_when_resumable", "C10_failed_pause_at_top_of_loop",
 impl_batch = cc.impl_batch
 coq_term = cc.coq_term
 RULE = ec.RULE + ("; plus C10 extras: clear_checkpoint at every position of plans with cleanup (try/finally, nested runs, staged and moved "
-                  "devices), a pause / pause message / suspension at every later `_run` step")
+                  "devices; a pause message inside try/finally with a three-message clean-up), a pause / pause message / suspension at every "
+                  "later `_run` step")
 
 
 def cases(rng, tier):
